@@ -1,6 +1,6 @@
 (* C16 runner: data-source history + harness script -> extracted PacketSource model.
    cfg:<plain|zc|concat>,<nocopy>[,<lazy>,<pool>] (Lazy/Pool: the model's observables do not depend on them)  p:<hex>,<ts>,<caplen>,<len>,<ifidx>  e:<kind>  s: (next sub-source)
-   script: next start restart grant:n grantall recv:n cancel fin fcan:n ; orig: runs the unrepaired constructor *)
+   script: next start restart grant:n grantall recv:n cancel fin fcan:n setopt:nocopy=0|1 ; orig: runs the unrepaired constructor *)
 open Util
 module M = C16Model
 
@@ -39,6 +39,7 @@ let show (o : M.obs) : string =
       (String.concat "," (Stdlib.List.map pobs ps)) (b2i cl) (int_of_nat r) (int_of_nat g)
       (String.concat "," (Stdlib.List.map hexd fin))
   | M.OFcan (cl, g) -> Printf.sprintf "fcan;closed=%d;gor=%d" (b2i cl) (int_of_nat g)
+  | M.OSetOpt -> "setopt"
   | M.OOutOfFuel -> "model-out-of-fuel"
 
 let run (id : string) (ops : string list) (out : out_channel) =
@@ -68,6 +69,8 @@ let run (id : string) (ops : string list) (out : out_channel) =
     | ["cancel"] -> script := M.SCancel :: !script
     | ["fin"] -> script := M.SFin :: !script
     | ["fcan"; n] -> script := M.SFcan (nat_of_int (ios n)) :: !script
+    | ["setopt"; "nocopy=1"] -> script := M.SSetOpt true :: !script
+    | ["setopt"; "nocopy=0"] -> script := M.SSetOpt false :: !script
     | _ -> failwith ("c16 op: " ^ s)) ops;
   let hs = Stdlib.List.rev (Stdlib.List.rev !cur :: !hs) in
   let f = if !orig then M.run_script_orig else M.run_script in
